@@ -24,11 +24,16 @@ package main
 //	           the stream / the publisher leaves; each has a logical barrier after which
 //	           the server's closing call has returned
 //
-// The path is real and lossy under load (the publisher never retransmits), so
-// completeness is NOT demanded here; frames missing / present are only counted.
-// Judged per file and track: every block is byte-identical to one sent frame, no frame
-// twice, send order, timecodes never decrease, the first video block is a keyframe, the
-// container parses and declares only tracks of the connection, no file is left open.
+// One session in six starts its camera only after the recording began (audio-only
+// pre-roll; the server pushes the connection to the recorder a second time when the
+// video track shows up).  The path is real and lossy under load (the publisher never
+// retransmits), so completeness is NOT demanded here; frames missing / present are only
+// counted.  Judged per file and track: every block is byte-identical to one sent frame,
+// no frame twice, send order, timecodes never decrease, the first video block is a
+// keyframe, the container parses and declares only tracks of the connection, no file is
+// left open.  A separate child probes one history that can kill the server (longGap).
+// C20_E2E_STRESS="batches sessions frames" overloads the path on purpose,
+// C20_E2E_NO_PROBES=1 leaves out the late-camera sessions and the long-gap child.
 
 import (
 	"encoding/binary"
@@ -59,6 +64,7 @@ type e2eArgs struct {
 	Index    uint64 `json:"index"`
 	Sessions int    `json:"sessions"`
 	Frames   int    `json:"frames"`
+	Probe    string `json:"probe,omitempty"`
 }
 
 // what the server's receive loops stored in their caches, per up track (trace point)
@@ -85,6 +91,8 @@ type e2ePlan struct {
 	TsWrapV    bool   `json:"ts_wrap_video"`
 	TsWrapA    bool   `json:"ts_wrap_audio"`
 	End        string `json:"end"`
+	VideoLate  bool   `json:"video_starts_after_record,omitempty"`
+	Probe      string `json:"probe,omitempty"`
 	Tail       int    `json:"frames_after_unrecord"`
 	Width      int    `json:"width"`
 	Height     int    `json:"height"`
@@ -105,6 +113,8 @@ func e2eMakePlan(run *vk.Run, a e2eArgs, si int) e2ePlan {
 	p.SeqWrapA = p.Audio && r.IntN(2) == 0
 	p.TsWrapA = p.Audio && r.IntN(3) == 0
 	p.End = e2eEnds[k%len(e2eEnds)]
+	// an audio session in which the camera starts after the recording began
+	p.VideoLate = k%6 == 1 && os.Getenv("C20_E2E_NO_PROBES") == ""
 	p.Tail = 20 + r.IntN(60)
 	p.Width, p.Height = 64*(1+r.IntN(20)), 48*(1+r.IntN(20))
 	return p
@@ -307,6 +317,7 @@ type e2eSess struct {
 	up       *vrtc.Up
 	vtr, atr *vrtc.UpTrack
 	t0       time.Time
+	burst    bool // no pacing
 
 	diskID       string
 	plisBefore   int
@@ -331,6 +342,9 @@ func (s *e2eSess) plis() int {
 // by more than 100 ms the virtual clock is held back instead of sending a burst.
 // Pacing only: no verdict depends on it.
 func (s *e2eSess) pace(capUs int64) {
+	if s.burst {
+		return
+	}
 	due := s.t0.Add(time.Duration(capUs) * time.Microsecond)
 	d := time.Until(due)
 	if d > 0 {
@@ -355,6 +369,20 @@ func (s *e2eSess) send(f *e2eFrame) bool {
 	s.pace(f.capUs)
 	for _, pk := range f.pkts {
 		if err := s.vtr.Local.WriteRTP(pk); err != nil {
+			return false
+		}
+	}
+	return true
+}
+
+// audioOnly advances the virtual clock by us microseconds with the video silent.
+func (s *e2eSess) audioOnly(us int64) bool {
+	g := s.gen
+	g.capUs += us
+	for g.nextAudio <= g.capUs {
+		af := g.audio()
+		s.pace(af.capUs)
+		if err := s.atr.Local.WriteRTP(af.pkts[0]); err != nil {
 			return false
 		}
 	}
@@ -438,50 +466,102 @@ func (s *e2eSess) play(srv *vsrv.Server) string {
 		g.at.ssrc = ssrcOf(s.atr)
 	}
 
-	// pre-roll: the tracks come into being on the server, the last keyframe moves
-	// more than 40 packets into the past
-	s.resume()
-	want := 70 + g.r.IntN(60)
-	if !s.send(g.video(true, 2+g.r.IntN(5), "preroll")) {
-		return "publisher connection lost in the pre-roll"
+	stored := func(t *e2eTrack) bool { return len(e2eStoredOf(t.ssrc)) > 0 }
+	record := func() string {
+		if s.plisBefore = s.plis(); s.plisBefore > 0 {
+			return "a keyframe request reached the publisher before any receiver existed"
+		}
+		from := s.op.EventCount()
+		run.Note("session " + name + ": record")
+		s.op.Send(vclient.Msg{"type": "groupaction", "kind": "record"})
+		dm, ok := s.op.WaitForFrom(from, isRecordingUser("add"), e2eWatchdog)
+		if !ok {
+			return "the recording client did not show up"
+		}
+		s.diskID = dm.Str("id")
+		s.resume()
+		return ""
 	}
-	for sent := 0; sent < want; {
-		f := g.video(false, 2+g.r.IntN(3), "preroll")
-		sent += len(f.pkts)
-		if !s.send(f) {
+	s.resume()
+	deadline := time.Now().Add(30 * time.Second)
+	if p.VideoLate {
+		// the microphone is there first: audio only until the recorder has it
+		for n := 0; n < 15 || !stored(g.at); n++ {
+			if time.Now().After(deadline) {
+				return "the server stored no audio packet in the pre-roll"
+			}
+			if !s.audioOnly(20000) {
+				return "publisher connection lost in the pre-roll"
+			}
+		}
+		if why := record(); why != "" {
+			return why
+		}
+		for n := 0; n < 10; n++ {
+			if !s.audioOnly(20000) {
+				return "publisher connection lost after record"
+			}
+		}
+		// the camera starts: the server learns about the video track from its first
+		// packet and pushes the connection again 200 ms later; by then the keyframe
+		// is more than 40 packets old (60 packets are sent at once)
+		s.resume()
+		s.burst = true
+		ok := s.send(g.video(true, 2+g.r.IntN(5), "preroll"))
+		for sent := 0; ok && sent < 60; {
+			f := g.video(false, 2, "preroll")
+			sent += len(f.pkts)
+			ok = s.send(f)
+		}
+		s.burst = false
+		if !ok {
+			return "publisher connection lost when the video started"
+		}
+		s.resume()
+	} else {
+		// pre-roll: the tracks come into being on the server, the last keyframe
+		// moves more than 40 packets into the past
+		want := 70 + g.r.IntN(60)
+		if !s.send(g.video(true, 2+g.r.IntN(5), "preroll")) {
 			return "publisher connection lost in the pre-roll"
 		}
+		for sent := 0; sent < want || !stored(g.vt) || (p.Audio && !stored(g.at)); {
+			if time.Now().After(deadline) {
+				return "the server did not store packets of every track in the pre-roll"
+			}
+			f := g.video(false, 2+g.r.IntN(3), "preroll")
+			sent += len(f.pkts)
+			if !s.send(f) {
+				return "publisher connection lost in the pre-roll"
+			}
+		}
+		if why := record(); why != "" {
+			return why
+		}
 	}
-	s.plisBefore = s.plis()
-	if s.plisBefore > 0 {
-		return "a keyframe request reached the publisher before any receiver existed"
-	}
-
-	// record
-	from := s.op.EventCount()
-	run.Note("session " + name + ": record")
-	s.op.Send(vclient.Msg{"type": "groupaction", "kind": "record"})
-	dm, ok := s.op.WaitForFrom(from, isRecordingUser("add"), e2eWatchdog)
-	if !ok {
-		return "the recording client did not show up"
-	}
-	s.diskID = dm.Str("id")
 
 	// attach: the recorder's tracks are attached when the receive loop sees the next
 	// packets; it asks for a keyframe (no replay: the keyframe is > 40 packets back)
-	s.resume()
-	deadline := time.Now().Add(30 * time.Second)
+	deadline = time.Now().Add(30 * time.Second)
 	for s.plis() == 0 {
 		if time.Now().After(deadline) {
 			return "no keyframe request observed after record (recorder not attached?)"
 		}
 		s.attachFrames++
-		if !s.send(g.video(false, 1, "attach")) {
+		npk := 1
+		if p.VideoLate {
+			npk = 2
+		}
+		if !s.send(g.video(false, npk, "attach")) {
 			return "publisher connection lost while the recorder attached"
 		}
 	}
+	if p.Probe == "long-gap" {
+		return s.longGap()
+	}
 
 	// main stream
+	from := 0
 	nextKey := 3 + g.r.IntN(18)
 	for i := 0; i < p.Frames; i++ {
 		if p.End == "unrecord-midstream" && i == p.Frames-p.Tail {
@@ -535,6 +615,40 @@ func (s *e2eSess) play(srv *vsrv.Server) string {
 		}
 	}
 	return ""
+}
+
+// longGap is the probe of one delivery history inside the property's quantifier ("gaps
+// that the cache cannot fill"): with the recorder attached and nothing else buffered, the
+// first packet of a two-packet frame is followed by a packet 511 sequence numbers ahead
+// (510 packets that never existed).  The session only reports whether the server is
+// still there afterwards.
+func (s *e2eSess) longGap() string {
+	g, run := s.gen, s.run
+	ok := s.send(g.video(true, 3, "main"))
+	for i := 0; ok && i < 10; i++ {
+		ok = s.send(g.video(false, 2, "main"))
+	}
+	if !ok {
+		return "publisher connection lost before the gap"
+	}
+	f := g.video(false, 2, "main")
+	f.pkts[1].SequenceNumber += 510
+	g.vseq += 510
+	run.Note(fmt.Sprintf("session %s: long gap: packet %d (S bit, no marker) is followed by packet %d", s.p.name(), f.pkts[0].SequenceNumber, f.pkts[1].SequenceNumber))
+	run.Count("e2e_long_gap_probes", 1)
+	s.send(f)
+	for i := 0; i < 20; i++ {
+		s.send(g.video(i == 5, 2, "main"))
+	}
+	if !s.op.Ping(30*time.Second) || !s.pubc.Ping(30*time.Second) {
+		time.Sleep(2 * time.Second) // the server is dying: let it write its stack
+		return "no pong after the long gap"
+	}
+	run.Count("e2e_long_gap_survived", 1)
+	from := s.op.EventCount()
+	s.op.Send(vclient.Msg{"type": "groupaction", "kind": "unrecord"})
+	s.waitDiskGone(from)
+	return "probe"
 }
 
 // ---------------------------------------------------------------------------
@@ -606,7 +720,12 @@ func (t *e2eTrack) describe(d []byte) string {
 // that order, directly or from the cache), releases exactly these blocks; the
 // instrumented copy has the same output and saw a frame wrap around its ring; and the
 // copy with only that defect repaired releases nothing but frames that were sent.
-func (s *e2eSess) ringWrapExplains(bad [][]byte) (bool, string) {
+func (s *e2eSess) ringWrapExplains(bad [][]byte) (hit bool, how string) {
+	defer func() {
+		if recover() != nil { // the pinned builder can panic on long gaps
+			hit, how = false, ""
+		}
+	}()
 	t := s.gen.vt
 	feed := e2eStoredOf(t.ssrc)
 	if len(feed) == 0 || len(bad) == 0 {
@@ -691,6 +810,50 @@ func (s *e2eSess) ringWrapExplains(bad [][]byte) (bool, string) {
 	return true, fmt.Sprintf(" - the pinned sample builder alone, fed with the %d packets the server's receive loop stored, releases exactly this block (a frame wrapped around its ring %d times); a copy with only that defect repaired releases sent frames only", len(feed), cp.trigA)
 }
 
+// ringWrapPlausible is the fallback when the recorder's exact feed is not what the
+// receive loop stored (the writer was congested and the cache had moved on): the block
+// is exactly one sent frame of two or more packets without its LAST packet - what the
+// pinned builder's pop() makes of a frame that wraps around the end of its ring - and
+// the ring can have wrapped: it only does when the builder was never empty for 513
+// sequence numbers, which takes unrecoverable gaps less than 257 packets apart, each of
+// which costs a frame: at least two frames sent within the 600 packets before this one,
+// inside the recording, are in no file.  Without such losses the builder empties at
+// every frame end and the block is NOT attributed.
+func (s *e2eSess) ringWrapPlausible(d []byte, recorded map[int]bool) (bool, string) {
+	t := s.gen.vt
+	x := -1
+	for i, f := range t.frames {
+		if len(f.pkts) >= 2 && len(d) < len(f.data) && lcp(d, f.data) == len(d) {
+			if k, ok := t.cutOf(f, len(d)); ok && k == len(f.pkts)-1 {
+				x = i
+			}
+			break
+		}
+	}
+	if x < 0 {
+		return false, ""
+	}
+	first := -1
+	for i := range recorded {
+		if first < 0 || i < first {
+			first = i
+		}
+	}
+	lostBefore := 0
+	for j := x - 1; j > first && first >= 0; j-- {
+		if t.frames[x].pkts[0].SequenceNumber-t.frames[j].pkts[0].SequenceNumber > 600 {
+			break
+		}
+		if !recorded[j] {
+			lostBefore++
+		}
+	}
+	if lostBefore < 2 {
+		return false, ""
+	}
+	return true, fmt.Sprintf(" - the frame lacks exactly its last packet and %d frames sent within the 600 packets before it are in no file: the pinned sample builder was holding packets behind unrecoverable gaps and a frame that wraps around the end of its ring loses its last packet (the recorder's exact feed is not observable on this path; with a repaired builder the same overload produces no such block)", lostBefore)
+}
+
 type e2eBlock struct {
 	frame int // -1: no frame sent
 	tc    int64
@@ -721,13 +884,35 @@ func (s *e2eSess) judge() {
 	}
 	open := openFilesUnder(s.dir)
 	for _, o := range open {
-		add("e2e:file-not-closed", fmt.Sprintf("after the %s barrier (the server's closing call has returned, the recording client has left the group) the server still holds %s open", p.End, filepath.Base(o)))
+		key := "e2e:file-not-closed"
+		if data, err := os.ReadFile(o); err == nil {
+			if f, _ := vebml.Parse(data); len(f.Blocks) <= 1 {
+				// the header and at most one block: not a recording in progress
+				// but a file opened by a packet in flight and then forgotten
+				key = "e2e:file-not-closed:stray-file"
+			}
+		}
+		listing := ""
+		for i, path := range files {
+			data, _ := os.ReadFile(path)
+			f, _ := vebml.Parse(data)
+			var decl []string
+			for _, ft := range f.Tracks {
+				decl = append(decl, ft.CodecID)
+			}
+			mark := ""
+			if path == o {
+				mark = ", OPEN"
+			}
+			listing += fmt.Sprintf(" [%d: %s, %d bytes, %v, %d blocks%s]", i+1, filepath.Base(path), len(data), decl, len(f.Blocks), mark)
+		}
+		add(key, fmt.Sprintf("after the %s barrier (the server's closing call has returned, the recording client has left the group) the server still holds %s open; files of the session in order of creation:%s", p.End, filepath.Base(o), listing))
 	}
 
 	tracks := map[string]*e2eTrack{"video": g.vt, "audio": g.at}
 	recorded := map[string]map[int]bool{"video": {}, "audio": {}}
 	var badVideo [][]byte
-	badWhat := ""
+	var badWhats []string
 	nblocks, matched := 0, map[string]int{}
 	stepsOK, stepsOff := 0, 0
 	wellformed := 0
@@ -816,9 +1001,7 @@ func (s *e2eSess) judge() {
 					what := fmt.Sprintf("%s, %s block %d (after frame #%d): %s", base, kind, bi, last, t.describe(b.data))
 					if kind == "video" {
 						badVideo = append(badVideo, b.data)
-						if badWhat == "" {
-							badWhat = what
-						}
+						badWhats = append(badWhats, what)
 					} else {
 						add("e2e:block-not-a-sent-frame", what)
 					}
@@ -862,15 +1045,24 @@ func (s *e2eSess) judge() {
 	}
 	if len(badVideo) > 0 {
 		if hit, how := s.ringWrapExplains(badVideo); hit {
-			add("samplebuilder:ring-wrap-off-by-one", badWhat+how)
+			add("samplebuilder:ring-wrap-off-by-one", badWhats[0]+how)
 		} else {
-			add("e2e:block-not-a-sent-frame", badWhat)
+			for i, b := range badVideo {
+				if ok, how := s.ringWrapPlausible(b, recorded["video"]); ok {
+					add("samplebuilder:ring-wrap-off-by-one", badWhats[i]+how)
+				} else {
+					add("e2e:block-not-a-sent-frame", badWhats[i])
+				}
+			}
 		}
 	}
 
 	// accounting (what was lost on the way is counted, not judged)
 	run.Count("e2e_sessions_judged", 1)
 	run.Count("e2e_sessions_end_"+p.End, 1)
+	if p.VideoLate {
+		run.Count("e2e_sessions_camera_started_after_record", 1)
+	}
 	run.Count("e2e_files_parsed", int64(len(files)))
 	run.Count("e2e_files_wellformed", int64(wellformed))
 	run.Count("e2e_files_closed", int64(len(files)-len(open)))
@@ -959,7 +1151,7 @@ func (s *e2eSess) judge() {
 			sh = append(sh, k)
 		}
 		sort.Strings(sh)
-		run.Distinct(fmt.Sprintf("e2e audio=%v desc=%d end=%s files>1=%v lossy=%v %v", p.Audio, p.Desc, p.End, len(files) > 1, lossy, sh))
+		run.Distinct(fmt.Sprintf("e2e audio=%v late-video=%v desc=%d end=%s files>1=%v lossy=%v %v", p.Audio, p.VideoLate, p.Desc, p.End, len(files) > 1, lossy, sh))
 	}
 	run.Sample(map[string]any{"e2e_plan": p, "video_frames_sent": len(g.vt.frames), "audio_frames_sent": len(g.at.frames), "attach_frames": s.attachFrames,
 		"files": len(files), "blocks": nblocks, "video_blocks_matched": matched["video"], "audio_blocks_matched": matched["audio"], "clean": len(viol) == 0})
@@ -1005,8 +1197,15 @@ func e2eChild() {
 		go func(si int) {
 			defer wg.Done()
 			p := e2eMakePlan(run, a, si)
+			if a.Probe != "" {
+				p.Probe, p.Audio, p.VideoLate, p.SeqWrapA, p.TsWrapA = a.Probe, false, false, false, false
+			}
 			s := &e2eSess{run: run, p: p, gen: e2eNewGen(run, p)}
-			if why := s.play(srv); why != "" {
+			why := s.play(srv)
+			if why == "probe" {
+				return
+			}
+			if why != "" {
 				run.Count("e2e_sessions_not_established", 1)
 				run.Note("session " + p.name() + ": " + why)
 				return
@@ -1022,13 +1221,24 @@ func e2eChild() {
 	os.Exit(0)
 }
 
-func e2eBatch(run *vk.Run, b uint64, sessions, frames int) {
-	res := run.RunChild("e2e", e2eArgs{Index: b, Sessions: sessions, Frames: frames}, 10*time.Minute)
+func e2eBatch(run *vk.Run, a e2eArgs) {
+	res := run.RunChild("e2e", a, 10*time.Minute)
+	rep := map[string]any{"e2e_batch": a.Index, "probe": a.Probe}
 	switch {
 	case strings.HasPrefix(res.Crash, "harness-crash:"):
 		run.Inconclusive("e2e: harness crashed: " + res.Crash + "\n" + res.CrashText)
+	case res.Crash != "" && strings.Contains(res.CrashText, "nil pointer dereference") && strings.Contains(res.CrashText, "samplebuilder.(*SampleBuilder).pop") && strings.Contains(res.Crash, "diskwriter.(*diskTrack).writeBuffered"):
+		gap := ""
+		for _, n := range res.Notes {
+			if strings.Contains(n, "long gap") {
+				gap = "; " + n
+			}
+		}
+		rep["crash"] = res.CrashText
+		run.Violation("e2e:server-crashed:samplebuilder-pop-nil-packet", "the whole server died while recording: nil pointer dereference in the pinned sample builder's pop(), called from diskTrack.writeBuffered (a gap of almost 512 packets made Push drop everything it held and store the new packet in the middle of an empty ring whose tail slot is nil)"+gap, rep)
 	case res.Crash != "":
-		run.Violation("e2e:server-crashed:"+res.Crash, "the server died in the end-to-end tier: "+res.Crash+"; last commands: "+strings.Join(res.Notes, " | "), map[string]any{"e2e_batch": b, "crash": res.CrashText})
+		rep["crash"] = res.CrashText
+		run.Violation("e2e:server-crashed:"+res.Crash, "the server died in the end-to-end tier: "+res.Crash+"; last commands: "+strings.Join(res.Notes, " | "), rep)
 	case res.TimedOut:
 		run.Inconclusive("e2e: watchdog fired")
 	}
@@ -1041,7 +1251,12 @@ func e2eReplay(run *vk.Run, m map[string]any) bool {
 	if !ok {
 		return false
 	}
-	e2eBatch(run, uint64(b), run.Pick(6, 10), run.Pick(400, 900))
+	probe, _ := m["probe"].(string)
+	if probe != "" {
+		e2eBatch(run, e2eArgs{Index: uint64(b), Sessions: 1, Frames: 100, Probe: probe})
+	} else {
+		e2eBatch(run, e2eArgs{Index: uint64(b), Sessions: run.Pick(6, 10), Frames: run.Pick(400, 900)})
+	}
 	return true
 }
 
@@ -1049,6 +1264,10 @@ func e2eTier(run *vk.Run) {
 	batches := run.Pick(2, 8)
 	sessions := run.Pick(6, 10)
 	frames := run.Pick(400, 900)
+	if v := os.Getenv("C20_E2E_STRESS"); v != "" {
+		// debugging aid: "batches sessions frames", to overload the path on purpose
+		fmt.Sscan(v, &batches, &sessions, &frames)
+	}
 	var wg sync.WaitGroup
 	sem := make(chan struct{}, 2)
 	for b := 0; b < batches; b++ {
@@ -1057,10 +1276,15 @@ func e2eTier(run *vk.Run) {
 		go func(b int) {
 			defer wg.Done()
 			defer func() { <-sem }()
-			e2eBatch(run, uint64(b), sessions, frames)
+			e2eBatch(run, e2eArgs{Index: uint64(b), Sessions: sessions, Frames: frames})
 		}(b)
 	}
 	wg.Wait()
+	if os.Getenv("C20_E2E_NO_PROBES") == "" {
+		// a history that kills the server gets a server of its own
+		e2eBatch(run, e2eArgs{Index: 1000, Sessions: 1, Frames: 100, Probe: "long-gap"})
+		run.FloorCounter("e2e_long_gap_probes", 1)
+	}
 	total := int64(batches * sessions)
 	run.FloorCounter("e2e_sessions_judged", (total*2+2)/3)
 	run.FloorCounter("e2e_files_closed", total/2)
@@ -1072,6 +1296,7 @@ func e2eTier(run *vk.Run) {
 	run.FloorCounter("e2e_recorded_tracks_spanning_a_timestamp_wrap", int64(run.Pick(1, 8)))
 	run.FloorCounter("e2e_recordings_stopped_in_mid_stream", int64(run.Pick(1, 6)))
 	run.Assume("end-to-end tier: the path is lossy under load and the harness publisher never retransmits, so completeness is not demanded (missing frames are counted); a recording is one file: uniqueness, order and timecodes are judged per file and track; audio/video alignment is not judged (without sender reports the recorder aligns by arrival time: wall clock)")
-	run.Assume("end-to-end tier keeps off the triggers of the open findings instead of re-reporting them: no sender reports exist (vrtc peers have no interceptors: sender-report-moves-origin); RTP timestamps follow one virtual capture clock paced in real time with keyframes at most 0.36 s apart, so nothing is released 2^16 ticks before an origin unless two consecutive keyframes lose packets (wrap-heuristic-misfire), and that, like a damaged first keyframe (origin-set-by-later-keyframe), only loses frames or splits the recording, which is not judged here; the recorder is attached where the last keyframe is more than 40 packets old and the attachment is observed (the server's PLI reaches the publisher) before the judged stream starts, so the server's replay of its cache from the last keyframe concurrently with live forwarding (reordering, duplicate of the newest packet: samplebuilder:duplicate-of-newest-releases-all, samplebuilder:ring-wrap-off-by-one) does not take place")
-	run.Assume("end-to-end tier: a video block that equals no sent frame is filed under samplebuilder:ring-wrap-off-by-one only if the pinned sample builder alone, fed with the packets the server's receive loop stored (trace point VerifTraceStored, build tag verif), releases exactly that block, an instrumented copy with identical output saw a frame wrap around its ring, and the copy with only that defect repaired releases sent frames only; otherwise it is e2e:block-not-a-sent-frame")
+	run.Assume("end-to-end tier keeps off the triggers of the open findings instead of re-reporting them: no sender reports exist (vrtc peers have no interceptors: sender-report-moves-origin); RTP timestamps follow one virtual capture clock paced in real time with keyframes at most 0.36 s apart, so nothing is released 2^16 ticks before an origin unless two consecutive keyframes lose packets (wrap-heuristic-misfire), and that, like a damaged first keyframe (origin-set-by-later-keyframe), only loses frames or splits the recording, which is not judged here; record is only sent once the server has stored packets of every track (one PushConn to the recorder), where the last video keyframe is more than 40 packets old, and the attachment is observed (the server's PLI reaches the publisher) before the judged stream starts, so the server's replay of its cache from the last keyframe concurrently with live forwarding (reordering, duplicate of the newest packet: samplebuilder:duplicate-of-newest-releases-all, samplebuilder:ring-wrap-off-by-one) does not take place; one session in six starts its camera after the recording began (the connection is pushed to the recorder a second time), again with the keyframe more than 40 packets old when that happens")
+	run.Assume("end-to-end tier: a video block that equals no sent frame is filed under samplebuilder:ring-wrap-off-by-one if the pinned sample builder alone, fed with the packets the server's receive loop stored (trace point VerifTraceStored, build tag verif), releases exactly that block, an instrumented copy with identical output saw a frame wrap around its ring, and the copy with only that defect repaired releases sent frames only; or, when the recorder's feed was not what was stored (congested writer), if the block is exactly a sent frame without its last packet and at least two frames sent within the 600 packets before it are in no file (the builder was never empty, its ring can have wrapped); otherwise it is e2e:block-not-a-sent-frame.  Only seen with 2 x 200 sessions on one CPU (half of the packets lost)")
+	run.Assume("end-to-end tier: one extra child sends, with the recorder attached, the first packet of a frame followed by a packet 511 sequence numbers ahead (a gap the cache cannot fill) and only reports whether the server survives")
 }
